@@ -116,6 +116,14 @@ CLAIMS = {
   technique="contract-based deductive verification (WP/symbolic-execution VCs over go/ast+go/types, SMT: z3 5.1/4.8, cvc5)"),
 }
 
+# single source for the level text and category: props/<id>.json (also used for the evidence files)
+for _k, _c in CLAIMS.items():
+    _pj = os.path.join(V, "props", _k + ".json")
+    if os.path.exists(_pj):
+        _d = json.load(open(_pj))
+        _c["text"] = _d["explanation"]
+        _c["category"] = _d.get("level", _c["category"])
+
 NA = {
  "C09": "convergence/liveness over network schedules and fault sequences: no per-call contract expresses it and the verifier has no thread/channel semantics; the codec and drift detection it rests on are decided under C10",
  "C18": "every clause is about the goroutine ordering of forked pipe handlers or about non-blocking; a contract verifier without goroutine semantics decides no clause of the statement",
